@@ -294,6 +294,32 @@ theorem gaussian_zero_cov_is_bivariate_normal_cdf (μ0 μ1 : ℝ) {s00 s11 : ℝ
     ← cdf_gaussianReal_standardise μ0 h0, ← cdf_gaussianReal_standardise μ1 h1, cdf_eq_real, cdf_eq_real]
   rfl
 
+/-- **the property for the Gaussian kernel, PARTIAL: zero covariance only.**  For all means and all positive
+    variances, with `Φ` the standard normal CDF and `sqrt` the real square root, the kernel with `sigma[0][1] = 0`
+    (i) *is* the bivariate normal CDF of `N(μ₀,σ₀₀) ⊗ N(μ₁,σ₁₁)`, hence agrees with it to any tolerance, (ii) lies in
+    [0,1], (iii) is non-decreasing in each argument, (iv) gives non-negative mass to every rectangle, (v) tends to 0
+    and 1 in the tails.  MISSING for the full property (`BvnIsAccurateValidCdf` below): the same for a non-zero
+    covariance, i.e. an error bound for the Drezner–Wesolowsky/Genz quadrature in `bvn`; that clause is only tested. -/
+theorem gaussian_is_valid_accurate_cdf_partial (μ0 μ1 : ℝ) {s00 s11 : ℝ} (h0 : 0 < s00) (h1 : 0 < s11)
+    (bvn : ℝ → ℝ → ℝ → ℝ → ℝ → ℝ → ℝ → ℝ) :
+    let F := fun x y => gaussian Φstd Real.sqrt bvn x y μ0 μ1 s00 s11 0
+    (∀ x y, F x y =
+      (((gaussianReal μ0 s00.toNNReal).prod (gaussianReal μ1 s11.toNNReal)) (Iic x ×ˢ Iic y)).toReal) ∧
+    (∀ x y, 0 ≤ F x y ∧ F x y ≤ 1) ∧
+    (∀ x x' y y', x ≤ x' → y ≤ y' → F x y ≤ F x' y') ∧
+    (∀ x0 x1 y0 y1, x0 ≤ x1 → y0 ≤ y1 → 0 ≤ F x1 y1 - F x0 y1 - F x1 y0 + F x0 y0) ∧
+    (∀ y, Tendsto (fun x => F x y) atBot (𝓝 0)) ∧ (∀ x, Tendsto (fun y => F x y) atBot (𝓝 0)) ∧
+    Tendsto (fun p : ℝ × ℝ => F p.1 p.2) (atTop ×ˢ atTop) (𝓝 1) := by
+  have v := gaussian_zero_cov_valid stdNormalCdf_isCdfLike (Real.sqrt_pos.mpr h0) (Real.sqrt_pos.mpr h1)
+    bvn μ0 μ1
+  have t := sbvn_tails stdNormalCdf_tails.1 stdNormalCdf_tails.2 h0 h1 μ0 μ1
+  have e : ∀ x y, gaussian Φstd Real.sqrt bvn x y μ0 μ1 s00 s11 0 = sbvn Φstd Real.sqrt x y μ0 μ1 s00 s11 := by
+    intro x y; simp [gaussian]
+  refine ⟨fun x y => gaussian_zero_cov_is_bivariate_normal_cdf μ0 μ1 h0 h1 bvn x y, v.1, v.2.1, v.2.2, ?_, ?_, ?_⟩
+  · intro y; simpa only [e] using t.1 y
+  · intro x; simpa only [e] using t.2.1 x
+  · simpa only [e] using t.2.2
+
 /-- non-vacuity: variances 1e-4 and 1e4 (the extremes of the harness) are admissible -/
 example : (0 : ℝ) < 1 / 10000 ∧ (0 : ℝ) < 10000 := by norm_num
 
